@@ -17,6 +17,22 @@ def showEvs (l : List (Int × Bool)) : String := if l.isEmpty then "-" else ",".
 def canon (l : List (Int × Bool)) : List (Int × Bool) :=
   l.mergeSort (fun a b => a.1 < b.1 || (a.1 == b.1 && (!a.2 || b.2)))
 
+/-- `reloadd <interval> <durations> <arrivals>` / `ingressd <delta> <wait> <durations> <arrivals>`:
+the `k`-th run takes `durations[k]`; impl output = observed run STARTS.  The model is the code that exists
+(`forgetId`); the Spec is judged on the observed starts inside `judged` (every run shorter than the interval,
+one kind of item or instantaneous runs), outside it only `extra-run` is judged and the case still counts for
+the correspondence. -/
+def handleD (lim : Limiter) (delta slack : Int) (durs evs impl : String) : Verdict :=
+  match parseList String.toInt? durs, parseList parseEv evs, parseList parseEv impl with
+  | some durs, some evs, some rs =>
+    let st := flushD forgetId (runAllD lim forgetId durs evs)
+    let tie := st.tie || st.q.tie
+    let m := canon st.starts.reverse
+    let rs := canon rs
+    { model := showEvs m ++ (if tie then " tie" else ""), agree := tie || m = rs,
+      oracle := if tie then none else oracleD delta slack durs evs rs, trivial := tie || evs.length < 2 }
+  | _, _, _ => bad "parse"
+
 /-- `reload <interval> <arrivals>` / `ingress <delta> <wait> <arrivals>`; impl output = observed runs -/
 def handle (args : List String) (impl : String) : Verdict :=
   let go (lim : Limiter) (delta slack : Int) (evs : String) : Verdict :=
@@ -32,6 +48,12 @@ def handle (args : List String) (impl : String) : Verdict :=
   | ["reload", i, evs] => match i.toInt? with
     | some i => go (reloadWhen i) i 0 evs
     | none => bad "parse"
+  | ["reloadd", i, durs, evs] => match i.toInt? with
+    | some i => handleD (reloadWhen i) i 0 durs evs impl
+    | none => bad "parse"
+  | ["ingressd", d, w, durs, evs] => match d.toInt?, w.toInt? with
+    | some d, some w => handleD (ingressWhen d w) d w durs evs impl
+    | _, _ => bad "parse"
   | ["ingress", d, w, evs] => match d.toInt?, w.toInt? with
     | some d, some w => go (ingressWhen d w) d w evs
     | _, _ => bad "parse"
